@@ -331,6 +331,8 @@ fn hook_def(h: &HookG, sock: &str, rec: &str, dir: &str) -> Value {
 	args.push("stmt={% if challenge %}c{% else %}n{% endif %}".into());
 	args.push("cmt={# not for the hook #}x".into());
 	args.push("plain=no template at all".into());
+	// a template whose own text ends like the name of a markup file
+	args.push("page={{ file_directory }}/{{ challenge }}/index.html".into());
 	let mut o = json!({"name": h.name, "type": h.types, "cmd": rec, "args": args, "allow_failure": h.allow_failure});
 	match h.stdin_kind {
 		1 => o["stdin_str"] = json!("in:{{ identifier }}:{{ file_name }}:{{ is_success }}:{{ env.VK1 | default('-') }}|end"),
@@ -526,7 +528,8 @@ fn exec_in(case: &Case, acmed: &std::path::Path, dir: &std::path::Path) -> Outco
 			return Outcome::fail("C10:variable-rev_labels", format!("{}: rev_labels gives {:?}, expected {want_rev:?}", r.hook_id, r.arg("rev")));
 		}
 		let want_stmt = if inv.vars.get("challenge").map(|s| !s.is_empty()).unwrap_or(false) { "c" } else { "n" };
-		for (k, want) in [("stmt", want_stmt), ("cmt", "x"), ("plain", "no template at all")] {
+		let want_page = format!("{}/{}/index.html", inv.vars.get("file_directory").cloned().unwrap_or_default(), inv.vars.get("challenge").cloned().unwrap_or_default());
+		for (k, want) in [("stmt", want_stmt), ("cmt", "x"), ("plain", "no template at all"), ("page", want_page.as_str())] {
 			if r.arg(k) != Some(want) {
 				return Outcome::fail("C10:template-rendering", format!("{} at {}: the argument template {k} was rendered as {:?}, expected {want:?}", r.hook_id, inv.event, r.arg(k)));
 			}
@@ -594,7 +597,7 @@ fn exec_in(case: &Case, acmed: &std::path::Path, dir: &std::path::Path) -> Outco
 }
 
 pub fn run(ctx: &Ctx, rep: &mut Report) {
-	rep.rule = "hook configurations: 1..7 hooks with 1..4 of the 11 types each, allow_failure, planned exit behaviour (0, 1, 2, 255, SIGKILL), stdin_str / stdin file / stdout / stderr templates; 0..3 groups nested without cycles; certificate hook list of 0..8 names and account hook list of 0..4 names (hooks and groups, the same hook reachable several times); environment tables at daemon, global, certificate, identifier and account level over 4 overlapping keys; 1..2 identifiers with mixed challenge types; the first two attempts of one daemon run (first issuance and immediate renewal, or retries after a hook failure). Oracle: the recorder log equals the trace predicted by the hook-trace model (appendix C of DESIGN.md): same hooks in the same order per event, every documented template variable (others empty), argument templates made of a statement, a comment or plain text only, env filter default and rev_labels, process environment and template env per level precedence, stdin bytes, stdout/stderr files, file existence at pre-create vs the other file events, no overlap of a certificate's hooks, hard failure stops the event and fails the attempt, allow_failure continues, clean hooks get identical variables except is_clean_hook. Non-trivial = >= 3 hooks in the certificate's expanded list with a group, a multi-typed hook and a hook that ran and exited non-zero.".into();
+	rep.rule = "hook configurations: 1..7 hooks with 1..4 of the 11 types each, allow_failure, planned exit behaviour (0, 1, 2, 255, SIGKILL), stdin_str / stdin file / stdout / stderr templates; 0..3 groups nested without cycles; certificate hook list of 0..8 names and account hook list of 0..4 names (hooks and groups, the same hook reachable several times); environment tables at daemon, global, certificate, identifier and account level over 4 overlapping keys; 1..2 identifiers with mixed challenge types; the first two attempts of one daemon run (first issuance and immediate renewal, or retries after a hook failure). Oracle: the recorder log equals the trace predicted by the hook-trace model (appendix C of DESIGN.md): same hooks in the same order per event, every documented template variable (others empty), argument templates made of a statement, a comment or plain text only, or whose text ends in .html, env filter default and rev_labels, process environment and template env per level precedence, stdin bytes, stdout/stderr files, file existence at pre-create vs the other file events, no overlap of a certificate's hooks, hard failure stops the event and fails the attempt, allow_failure continues, clean hooks get identical variables except is_clean_hook. Non-trivial = >= 3 hooks in the certificate's expanded list with a group, a multi-typed hook and a hook that ran and exited non-zero.".into();
 	rep.assume("whether [global].env reaches account hooks is not judged (keys defined only at global level are expected absent for account hooks as the code does; see DESIGN.md C10)");
 	run_replays::<Case>(ctx, rep, "bb", &exec);
 	if ctx.replay.is_some() {
